@@ -515,17 +515,31 @@ func drainFracTxt(f float64) string {
 
 func (sc *Scenario) rotationFile(csv bool) string {
 	var b strings.Builder
+	// the CSV rotation file is header-driven: a third of the files have their columns in another order
+	order := []string{"Field_ID", "crop", "sowing", "harvest", "Rex", "yld", "autorg", "variety", "comment"}
+	if ro := NewRng(mix(mix(sc.Seed, uint64(sc.Index)), 9595)); csv && ro.Bool(0.33) {
+		for k := len(order) - 1; k > 0; k-- {
+			o := ro.Intn(k + 1)
+			order[k], order[o] = order[o], order[k]
+		}
+	}
 	line := func(field string, e RotEntry) {
 		sow := FmtDate(e.Sow, sc.DateFormat)
 		har := FmtDate(e.Harvest, sc.DateFormat)
 		if csv {
-			fmt.Fprintf(&b, "%s,%-3s,%s,%s,%03d,%03d,%d,%s,gen\n", field, e.Crop, sow, har, e.Rex, e.Yld, e.AutOrg, e.Variety)
+			cell := map[string]string{"Field_ID": field, "crop": fmt.Sprintf("%-3s", e.Crop), "sowing": sow, "harvest": har, "Rex": fmt.Sprintf("%03d", e.Rex), "yld": fmt.Sprintf("%03d", e.Yld),
+				"autorg": strconv.Itoa(e.AutOrg), "variety": e.Variety, "comment": "gen"}
+			var cells []string
+			for _, n := range order {
+				cells = append(cells, cell[n])
+			}
+			b.WriteString(strings.Join(cells, ",") + "\n")
 		} else {
 			fmt.Fprintf(&b, "%-9s %-3s %s %s %03d %03d %d %s\n", field, e.Crop, sow, har, e.Rex, e.Yld, e.AutOrg, e.Variety)
 		}
 	}
 	if csv {
-		b.WriteString("Field_ID,crop,sowing,harvest,Rex,yld,autorg,variety,comment\n")
+		b.WriteString(strings.Join(order, ",") + "\n")
 	} else {
 		b.WriteString("Field_ID    crp  sowing harvst Rex yld autorg variety comment\n")
 	}
